@@ -128,6 +128,28 @@ Section Shell.
     intro H. rewrite (isolated t sched s s eq_refl). rewrite H. unfold one_encode. cbn [observe].
     rewrite observe_gets. cbn [observe]. rewrite app_nil_r. rewrite tget_tset_same. apply thread_obs_repeat.
   Qed.
+
+  (* any number of encodes by the same thread, one after another: each look-up sees the palette of the encode in
+     progress, in every interleaving with the other threads *)
+  Definition many_encodes (t : nat) (jobs : list (D * nat)) : list (ev D) :=
+    flat_map (fun j => one_encode t (fst j) (snd j)) jobs.
+
+  Lemma thread_obs_app t a b : thread_obs t (a ++ b) = thread_obs t a ++ thread_obs t b.
+  Proof. unfold thread_obs. rewrite filter_app, map_app. reflexivity. Qed.
+
+  Lemma sequential_lookups t jobs s :
+    thread_obs t (observe D pal s (many_encodes t jobs)) = flat_map (fun j => repeat (Some (pal (fst j))) (snd j)) jobs.
+  Proof.
+    revert s; induction jobs as [|[d n] jobs IH]; intro s; [reflexivity|].
+    unfold many_encodes. cbn [flat_map fst snd]. unfold one_encode. cbn [app observe].
+    rewrite <- app_assoc. rewrite observe_gets. cbn [app observe].
+    rewrite thread_obs_app, thread_obs_repeat, tget_tset_same. f_equal. apply IH.
+  Qed.
+
+  Theorem interleaved_many t jobs sched s :
+    filter (of_thread t) sched = many_encodes t jobs ->
+    thread_obs t (observe D pal s sched) = flat_map (fun j => repeat (Some (pal (fst j))) (snd j)) jobs.
+  Proof. intro H. rewrite (isolated t sched s s eq_refl), H. apply sequential_lookups. Qed.
 End Shell.
 
 (* ---- the same statements are FALSE of the code before the repairs (documented, not used by the checks) ---- *)
